@@ -1,5 +1,5 @@
 (** Command dispatcher of the executable model. *)
-From RP2V Require Import Base.Prelude Model.Entry.
+From RP2V Require Import Base.Prelude Model.Entry Model.EntryFull.
 Open Scope Z_scope.
 
 Definition entry (cmd : Z) (args : list Z) : list Z :=
@@ -12,4 +12,7 @@ Definition entry (cmd : Z) (args : list Z) : list Z :=
   if cmd =? 13 then entry_events args else
   if cmd =? 30 then entry_computed args else
   if cmd =? 40 then entry_parse args else
+  if cmd =? 50 then entry_full args else
+  if cmd =? 51 then entry_full_msgids args else
+  if cmd =? 52 then entry_full_fixed args else
   [-999].
